@@ -4,9 +4,13 @@ import Uft.Lemmas.Graph
 C15 — Graph, flame-graph and Chrome exports are faithful projections of the trace.
 Property theorems only; helpers are in Lemmas/Json.lean and Lemmas/Graph.lean.
 
-Bytes are `Nat` values.  `fixed = true` is the code with the proposed repairs
-(findings F9 comm/cmdline escaping, F9b separator after the metadata lines, F9c flame
-count digits, S3 name_buf bound); `fixed = false` is /repo as it is.
+Bytes are `Nat` values.  `fixed = true` is the code with the repairs (findings F9
+comm/cmdline escaping, F9b separator after the metadata lines, F9c flame count digits,
+S3 name_buf bound); `fixed = false` is the code before them.  The chrome printers take a
+`Json.Fix`: `main` = F9, F9b, S3 (in /repo), `abuf` = C15-ARGBUF (`print_args` / `print_char`
+never leave the buffer they are given), `asym` = C15-ARGSYM (the symbol name of a pointer
+argument goes through the escaper in JSON mode).  `Fix.all` is the repaired code, `Fix.repo`
+the code with the `main` repairs only, `Fix.none` the code before every repair.
 -/
 namespace Uft.C15
 open Uft.Json Uft.Graph
@@ -84,53 +88,202 @@ theorem c15_prefix_name_buf_cut_witness :
 /-! ## the chrome document -/
 
 /-- FULL (repaired code): `dump --chrome` is a valid JSON text for every executable name,
-    command line, task list and event list — whatever bytes occur in names, comm or the
-    command line, with or without events.  Hypotheses: the info file has the CMDLINE bit
-    (always written by `uftrace record`), and the two build/run constants that are printed
-    with %s (UFTRACE_VERSION, ctime() of the info file) are string bodies. -/
-theorem c15_chrome_valid (d : Doc) (c : List Nat) (hc : d.cmdline = some c)
-    (hv : validBody d.version = true) (hd : validBody d.date = true) :
-    validJson (chromeOutput true d) = true := by
+    command line, task list and event list — whatever bytes occur in names, comm, the
+    command line, string / char arguments and return values and the names of the symbols that
+    pointer arguments resolve to, with or without events, however long the argument list is.
+    Hypotheses: the info file has the CMDLINE bit (always written by `uftrace record`), the
+    two build/run constants that are printed with %s (UFTRACE_VERSION, ctime() of the info
+    file) are string bodies, and so is what printf produces for the numeric formats (`raw`
+    values: `Ev.ok`; no condition on any other kind of value). -/
+theorem c15_chrome_valid_with_args (d : Doc) (c : List Nat) (hc : d.cmdline = some c)
+    (hv : validBody d.version = true) (hd : validBody d.date = true) (hok : ∀ e ∈ d.evs, e.ok) :
+    validJson (chromeOutput Fix.all d) = true := by
   have h1 := header_run (commOf d.exename) d.tasks
-  have h2 := evs_run d.evs (headerFix (commOf d.exename) d.tasks).2
+  have h2 := evs_run d.evs (headerFix (commOf d.exename) d.tasks).2 hok
   have h3 := footer_run ((headerFix (commOf d.exename) d.tasks).2 || !d.evs.isEmpty) d.version d.date c hv hd
   have := run_trans (run_trans h1 h2) h3
-  simp only [validJson, chromeOutput, header, ↓reduceIte, hc, this]
+  have hm : Fix.all.main = true := rfl
+  simp only [validJson, chromeOutput, hm, header, ↓reduceIte, hc, this]
   rfl
 
-/-- and no event name leaves the name buffer -/
-theorem c15_chrome_no_overflow (d : Doc) : chromeOob true d = false := by
+/-- the statement as it stood before argument payloads were modelled: records without
+    payload (`frs->more = 0`), no further hypothesis -/
+theorem c15_chrome_valid (d : Doc) (c : List Nat) (hc : d.cmdline = some c)
+    (hv : validBody d.version = true) (hd : validBody d.date = true)
+    (hna : ∀ e ∈ d.evs, e.args = none) :
+    validJson (chromeOutput Fix.all d) = true :=
+  c15_chrome_valid_with_args d c hc hv hd (fun e he vs h => by rw [hna e he] at h; cases h)
+
+/-- C15-ARGBUF repaired: whatever the values are (any bytes, any printf text, any length,
+    any number of values, symbol names escaped or not) `get_argspec_string` stores nothing
+    outside `spec_buf[2048]`, not even the terminating NUL, and leaves a NUL-terminated
+    string of at most 2047 bytes. -/
+theorem c15_args_buf_safe (asym retval : Bool) (vs : List ArgVal) :
+    (argString true asym retval vs).oob = false ∧ (argString true asym retval vs).term = false ∧
+    (argString true asym retval vs).out.length ≤ 2047 := by
+  obtain ⟨a, b, c, _⟩ := argString_gen (ok := False) asym retval vs (fun h => h.elim) (fun h => h.elim)
+  exact ⟨a, b, c⟩
+
+/-- and as long as the complete text "(v1, v2, …)" has at most 2046 bytes all of it is printed -/
+theorem c15_args_complete (vs : List ArgVal) (hl : (argFull false vs).length ≤ 2046) :
+    (argString true true false vs).out = argFull false vs :=
+  argString_fits vs (by omega)
+
+example : (argFull false [.str b!"a\"b\n" false, .chr 0, .sym b!"f\\", .raw b!"0x1f", .str [255, 255, 255, 255] true]) =
+    b!"(\\\"a\\\"b\\\\n\\\", '\\\\x00', &f\\\\, 0x1f, NULLs)" := by decide
+
+/-- C15-ARGBUF + C15-ARGSYM repaired: the argument / return value text is a JSON string body
+    for every byte content of strings, chars and symbol names -/
+theorem c15_args_body_valid (retval : Bool) (vs : List ArgVal) (hv : ∀ v ∈ vs, v.ok) :
+    validBody (argString true true retval vs).out = true := by
+  simp [validBody, (argString_inv retval vs hv).2.2.2]
+
+/-- the event object with arguments / a return value, as it stands in the "traceEvents" array,
+    is accepted by the recogniser for every byte content (the state before and after is "a
+    value of the array has ended") -/
+theorem c15_args_json_valid (e : Ev) (hok : e.ok) :
+    run ⟨.val, [.arr, .obj]⟩ (evText Fix.all e) = some ⟨.after, [.arr, .obj]⟩ :=
+  evText_run e (nameOut_body e.name) (fun vs h => (argString_inv _ vs (hok vs h)).2.2.2)
+
+/-- the same as a closed JSON text: the array with that one event -/
+theorem c15_args_json_valid_doc (e : Ev) (hok : e.ok) :
+    validJson (b!"{\"traceEvents\":[\n" ++ evText Fix.all e ++ b!"\n]}") = true := by
+  have h0 : run init b!"{\"traceEvents\":[\n" = some ⟨.valOrEnd, [.arr, .obj]⟩ := by decide
+  obtain ⟨E, hE⟩ := evText_head Fix.all e
+  have h1 : run ⟨.valOrEnd, [.arr, .obj]⟩ (evText Fix.all e) = some ⟨.after, [.arr, .obj]⟩ := by
+    have := c15_args_json_valid e hok
+    rw [hE] at this ⊢
+    exact this
+  have h2 : run ⟨.after, [.arr, .obj]⟩ b!"\n]}" = some ⟨.after, []⟩ := by decide
+  have := run_trans (run_trans h0 h1) h2
+  simp only [validJson, this]
+  rfl
+
+/-- non-vacuity: an event with hostile arguments meets `Ev.ok` -/
+example : (⟨true, 1, 1, b!"main", 2000, some [.str b!"a\"\\\x01" true, .chr 34, .sym b!"q\"x", .raw b!"-12"]⟩ : Ev).ok := by
+  intro vs h v hv
+  simp only [Option.some.injEq] at h
+  subst h
+  simp only [List.mem_cons, List.not_mem_nil, or_false] at hv
+  rcases hv with rfl | rfl | rfl | rfl
+  · trivial
+  · trivial
+  · trivial
+  · exact (by decide : bodyRun .normal b!"-12" = some .normal)
+
+set_option maxRecDepth 100000 in
+/-- non-vacuity of `c15_chrome_valid_with_args`: a document with hostile values meets its hypotheses -/
+example :
+    let d : Doc := { exename := b!"/synth/q\"x", version := b!"v0.17", date := b!"Mon Sep 21 14:13:20 2026",
+                     cmdline := some b!"uftrace record ./q\\\"x", tasks := [⟨1, 1⟩],
+                     evs := [⟨true, 1, 1, b!"f", 2000, some [.str b!"a\"\\\x01" true, .chr 34, .sym b!"q\"x"]⟩,
+                             ⟨false, 1, 1, b!"f", 3000, some [.str [255, 255, 255, 255] false]⟩] }
+    d.cmdline = some b!"uftrace record ./q\\\"x" ∧ validBody d.version = true ∧ validBody d.date = true ∧
+    (∀ e ∈ d.evs, e.ok) ∧ validJson (chromeOutput Fix.all d) = true ∧ validJson (chromeOutput Fix.repo d) = false := by
+  refine ⟨rfl, by decide, by decide, ?_, by decide, by decide⟩
+  intro e he vs h v hv
+  simp only [List.mem_cons, List.not_mem_nil, or_false] at he
+  rcases he with rfl | rfl
+  · simp only [Option.some.injEq] at h
+    subst h
+    simp only [List.mem_cons, List.not_mem_nil, or_false] at hv
+    rcases hv with rfl | rfl | rfl <;> trivial
+  · simp only [Option.some.injEq] at h
+    subst h
+    simp only [List.mem_cons, List.not_mem_nil, or_false] at hv
+    subst hv
+    trivial
+
+/-- and no event name leaves the name buffer, no argument string the argument buffer -/
+theorem c15_chrome_no_overflow (d : Doc) : chromeOob Fix.all d = false := by
   simp only [chromeOob, List.any_eq_false]
   intro e _
-  simp [(c15_name_buf_safe e.name).1]
+  have h2 : argsOob Fix.all e = false := by
+    unfold argsOob
+    cases e.args with
+    | none => rfl
+    | some vs => exact (c15_args_buf_safe _ _ vs).1
+  have hm : Fix.all.main = true := rfl
+  simp [hm, (c15_name_buf_safe e.name).1, h2]
 
 example : validBody b!" ( x86_64 dwarf python3 luajit tui perf sched kernel )" = true ∧
     validBody b!"Mon Sep 21 14:13:20 2026" = true := by decide
 
 /-- F9 witness (comm): executable `q"x`, one task, one event: the header prints comm raw -/
 theorem c15_prefix_comm_quote_witness :
-    validJson (chromeOutput false
+    validJson (chromeOutput Fix.none
       { exename := b!"/synth/q\"x", version := b!"v", date := b!"d", cmdline := some b!"c",
-        tasks := [⟨1, 1⟩], evs := [⟨true, 1, 1, b!"main", 2000⟩] }) = false := by decide
+        tasks := [⟨1, 1⟩], evs := [⟨true, 1, 1, b!"main", 2000, none⟩] }) = false := by decide
 
 /-- F9 witness (footer): a backslash in the command line is printed raw (`a\ b` is not a
     JSON escape) -/
 theorem c15_prefix_cmdline_backslash_witness :
-    validJson (chromeOutput false
+    validJson (chromeOutput Fix.none
       { exename := b!"/synth/prog", version := b!"v", date := b!"d", cmdline := some b!"a\\ b",
-        tasks := [⟨1, 1⟩], evs := [⟨true, 1, 1, b!"main", 2000⟩] }) = false := by decide
+        tasks := [⟨1, 1⟩], evs := [⟨true, 1, 1, b!"main", 2000, none⟩] }) = false := by decide
 
 /-- F9b witness: no event survives the filters — the metadata lines end in ",\n" and the
     array closes right after the comma -/
 theorem c15_prefix_empty_trace_witness :
-    validJson (chromeOutput false
+    validJson (chromeOutput Fix.none
       { exename := b!"/synth/prog", version := b!"v", date := b!"d", cmdline := some b!"c",
         tasks := [⟨1, 1⟩], evs := [] }) = false := by decide
 
 /-- the same three documents are valid with the repairs (instances of `c15_chrome_valid`) -/
-example : validJson (chromeOutput true
+example : validJson (chromeOutput Fix.all
       { exename := b!"/synth/q\"x", version := b!"v", date := b!"d", cmdline := some b!"a\\ b",
         tasks := [⟨1, 1⟩], evs := [] }) = true := by decide
+
+set_option maxRecDepth 100000 in
+/-- C15-ARGBUF witness (the code before the repair): one string argument of 410 bytes 0x01
+    (each printed as the five characters \\x01).  The 409th escape is cut by `vsnprintf`,
+    `print_args` still advances by five: `len` reaches 0, the 410th call subtracts five
+    from 0 and `len` wraps around to 2^64 - 5, and the closing quote is stored at
+    spec_buf[2053]. -/
+theorem c15_prefix_argbuf_overflow_witness :
+    (argString false false false [.str (List.replicate 410 1) false]).oob = true ∧
+    (argString true false false [.str (List.replicate 410 1) false]).oob = false := by decide
+
+set_option maxRecDepth 100000 in
+/-- C15-ARGBUF witness through `print_char`: 2046 letters.  The last one is stored at
+    spec_buf[2048]; no NUL was ever stored, so the `%s` that prints the buffer reads on. -/
+theorem c15_prefix_argbuf_char_witness :
+    (argString false false false [.str (List.replicate 2046 97) false]).oob = true ∧
+    (argString true false false [.str (List.replicate 2046 97) false]).oob = false := by decide
+
+/-- C15-ARGBUF witness for every string argument (the code before the repair; the string is not the
+    NULL marker, has no NUL byte inside and a length that fits the 16-bit length field of the record):
+    when its escaped form has 2044 bytes or more, at the latest the closing parenthesis is stored outside
+    `spec_buf[2048]` -/
+theorem c15_prefix_argbuf_overflow_any_witness (asym : Bool) (bs : List Nat) (h0 : ∀ c ∈ bs, c ≠ 0)
+    (hn : bs ≠ [255, 255, 255, 255]) (hlen : bs.length ≤ 65535) (h : 2044 ≤ (escapeStr bs).length) :
+    (argString false asym false [.str bs false]).oob = true :=
+  argString_prefix_oob asym bs h0 hn hlen h
+
+set_option maxRecDepth 100000 in
+/-- non-vacuity: 409 bytes 0xc3 (utf-8 text; a real argument record holds up to 1024 bytes) -/
+example : (∀ c ∈ List.replicate 409 195, c ≠ 0) ∧ List.replicate 409 195 ≠ [255, 255, 255, 255] ∧
+    (List.replicate 409 195).length ≤ 65535 ∧ 2044 ≤ (escapeStr (List.replicate 409 195)).length := by decide
+
+set_option maxRecDepth 100000 in
+/-- C15-ARGBUF witness inside the buffer: 2043 letters.  The closing `\"` finds `len = 2`, `vsnprintf`
+    stores the backslash and a NUL, `len` becomes 0 and the parenthesis is lost: no store is out of
+    bounds, but the text ends in a lone backslash, which swallows the quote that closes the JSON string.
+    With the repair the piece is dropped as a whole. -/
+theorem c15_prefix_argbuf_cut_witness :
+    (argString false false false [.str (List.replicate 2043 97) false]).oob = false ∧
+    validBody (argString false false false [.str (List.replicate 2043 97) false]).out = false ∧
+    validBody (argString true false false [.str (List.replicate 2043 97) false]).out = true := by decide
+
+/-- C15-ARGSYM witness: `f(&q"x)` — a pointer argument whose value is the address of the
+    symbol `q"x`; the name is printed with %s inside the JSON string -/
+theorem c15_prefix_argsym_quote_witness :
+    validJson (chromeOutput Fix.repo
+      { exename := b!"/synth/prog", version := b!"v", date := b!"d", cmdline := some b!"c",
+        tasks := [⟨1, 1⟩], evs := [⟨true, 1, 1, b!"main", 2000, some [.sym b!"q\"x"]⟩] }) = false ∧
+    validJson (chromeOutput Fix.all
+      { exename := b!"/synth/prog", version := b!"v", date := b!"d", cmdline := some b!"c",
+        tasks := [⟨1, 1⟩], evs := [⟨true, 1, 1, b!"main", 2000, some [.sym b!"q\"x"]⟩] }) = true := by decide
 
 /-! ## path aggregation -/
 
